@@ -230,6 +230,8 @@ class GEA:
             return term
         if h in ("ok", "err"):
             return (h, self.resolve_phis(term[1], val))
+        if h == "mut":
+            return (h, term[1], term[2], self.resolve_phis(term[3], val))
         if h in ("field", "variant"):
             inner = self.resolve_phis(term[1], val)
             return P.mk_field(inner, term[2]) if h == "field" else P.mk_variant(inner, term[2])
